@@ -7,6 +7,7 @@
 """
 import os, re, subprocess, sys, shutil, json
 V = "/verif"
+R = os.environ.get("SEED_ROUND", "seed")  # scratch prefix: /tmp/<R>_<ID> and /tmp/<R>_<ID>_out
 def sh(cmd, cwd=None, env=None, timeout=3600):
     e = dict(os.environ); e["CARGO_NET_OFFLINE"] = "true"
     if env: e.update(env)
@@ -15,8 +16,8 @@ def sh(cmd, cwd=None, env=None, timeout=3600):
 
 def patch_path(pid, x):
     p = os.path.join(V, "seeded", "%s-%s" % (pid, x), "patch.diff")
-    if os.path.exists(p): return p
-    return "/tmp/seed_%s_out/%s.diff" % (pid, x)
+    if R == "seed" and os.path.exists(p): return p
+    return "/tmp/%s_%s_out/%s.diff" % (R, pid, x)
 
 def detect(pid, x, tier):
     patch = patch_path(pid, x)
@@ -40,8 +41,8 @@ def detect(pid, x, tier):
     return rc
 
 def confirm(pid, x):
-    wt = "/tmp/seed_%s" % pid
-    outd = "/tmp/seed_%s_out" % pid
+    wt = "/tmp/%s_%s" % (R, pid)
+    outd = "/tmp/%s_%s_out" % (R, pid)
     patch = os.path.join(outd, x + ".diff")
     demo = os.path.join(outd, x + "_demo.rs")
     head = open(demo).read(3000)
